@@ -13,6 +13,7 @@ Arrays and records are not modelled (`lowerProgram` answers `none`).
 
 What the rows of the table record (each seen in the emitted GIR of the pinned commit):
 * `andOp/orOp/notOp`  Python spells `and or not`, the others `&& || !`; PHP's `.` is emitted as `+`;
+* `divOp`             integer division is `//` in Python, `/` in Java, Go and C (not rendered elsewhere);
 * `declEvery`         Python and PHP emit `variable_decl` before EVERY assignment to a name (and the
                       passes merge / hoist them); the others only for a declaration;
 * `prebody`           Java, C and Go put the statements that evaluate a loop condition into
@@ -64,6 +65,7 @@ structure Dialect where
   andOp : String := "&&"
   orOp : String := "||"
   notOp : String := "!"
+  divOp : String := "/"
   outName : String := "output"
   declEvery : Bool := false
   prebody : Bool := false
@@ -86,7 +88,7 @@ structure Dialect where
 /-- the dialect table. -/
 def dialect (l : Lang) (pinned : Bool) : Dialect :=
   match l with
-  | .python => { andOp := "and", orOp := "or", notOp := "not", outName := "print", declEvery := true,
+  | .python => { andOp := "and", orOp := "or", notOp := "not", divOp := "//", outName := "print", declEvery := true,
                  callTmpFirst := true, passes := true }
   | .php => { declEvery := true, strTmp := true, passes := true, hoistDecls := !pinned }
   | .javascript => { passes := true }
@@ -99,7 +101,8 @@ abbrev tmp (n : Nat) : String := LowerPy.tmp n
 
 /-! ## Operator spellings -/
 
-def binTok : BinOp → String
+def binTok (d : Dialect) : BinOp → String
+  | .div => d.divOp
   | .add => "+" | .sub => "-" | .mul => "*" | .mod => "%"
   | .lt => "<" | .le => "<=" | .gt => ">" | .ge => ">=" | .eq => "==" | .ne => "!="
   | .concat => "+"
@@ -117,6 +120,7 @@ def foldBin (op : BinOp) (a b : Expr) : Option Val :=
   | .add, .int x, .int y => some (.int (x + y))
   | .sub, .int x, .int y => some (.int (x - y))
   | .mul, .int x, .int y => some (.int (x * y))
+  | .div, .int x, .int y => if y == 0 then none else some (.int (Int.fdiv x y))
   | .mod, .int x, .int y => if y == 0 then none else some (.int (Int.fmod x y))
   | .lt, .int x, .int y => some (.bool (x < y))
   | .le, .int x, .int y => some (.bool (x ≤ y))
@@ -166,17 +170,17 @@ def lowerE (d : Dialect) : Expr → Nat → List Gir.Stmt × Opd × Nat
     else ([], .lit (.str s), k)
   | .var x, k => ([], .var x, k)
   | .bin op l r, k =>
-    match (if d.fold && isLit l && isLit r then foldOpd d (binTok op) l r (foldBin op l r) else none) with
+    match (if d.fold && isLit l && isLit r then foldOpd d (binTok d op) l r (foldBin op l r) else none) with
     | some o => ([], o, k)
     | none =>
       if d.rightFirst then
         let (s2, b, k1) := lowerE d r k
         let (s1, a, k2) := lowerE d l k1
-        (s2 ++ s1 ++ [.assign (tmp (k2 + 1)) (binTok op) a (some b)], .var (tmp (k2 + 1)), k2 + 1)
+        (s2 ++ s1 ++ [.assign (tmp (k2 + 1)) (binTok d op) a (some b)], .var (tmp (k2 + 1)), k2 + 1)
       else
         let (s1, a, k1) := lowerE d l k
         let (s2, b, k2) := lowerE d r k1
-        (s1 ++ s2 ++ [.assign (tmp (k2 + 1)) (binTok op) a (some b)], .var (tmp (k2 + 1)), k2 + 1)
+        (s1 ++ s2 ++ [.assign (tmp (k2 + 1)) (binTok d op) a (some b)], .var (tmp (k2 + 1)), k2 + 1)
   | .un op e, k =>
     match negLitOpd d op e with
     | some o => ([], o, k)
